@@ -184,6 +184,8 @@ struct Global {
   uint64_t switches;
   uint64_t futex_timeouts;
   uint64_t idle_jumps;
+  uint64_t idle_futex_timeouts;
+  bool in_idle;
   uint64_t blocks;
   uint64_t events;
   uint64_t fp;
@@ -391,8 +393,11 @@ static bool timer_pop_valid(Timer* out) {
 }
 static void fire_timer(const Timer& tm) {
   SimThread& t = g.th[tm.tid];
-  if (t.wk == SW_FUTEX)
+  if (t.wk == SW_FUTEX) {
     g.futex_timeouts++;
+    if (g.in_idle)
+      g.idle_futex_timeouts++;
+  }
   make_runnable(&t, WR_TIMEOUT);
   fp_mix(0x7100 + (uint64_t)tm.tid);
 }
@@ -675,8 +680,10 @@ static int pick_next_after_block() {
       if (tm.deadline > g.now)
         g.now = tm.deadline;
       g.idle_jumps++;
+      g.in_idle = true;
       fire_timer(tm);
       fire_due_timers();
+      g.in_idle = false;
       continue;
     }
     report_deadlock();
@@ -1552,8 +1559,10 @@ extern "C" int sched_yield(void) {
         if (tm.deadline > g.now)
           g.now = tm.deadline;
         g.idle_jumps++;
+        g.in_idle = true;
         fire_timer(tm);
         fire_due_timers();
+        g.in_idle = false;
         g.last_write_step = g.step;
       }
     }
@@ -1891,6 +1900,9 @@ extern "C" int sim_count_runnable_others(void) {
 }
 extern "C" uint64_t sim_stat_futex_timeouts(void) {
   return g.futex_timeouts;
+}
+extern "C" uint64_t sim_stat_idle_futex_timeouts(void) {
+  return g.idle_futex_timeouts;
 }
 extern "C" uint64_t sim_stat_idle_jumps(void) {
   return g.idle_jumps;
